@@ -117,6 +117,7 @@ def direct_case(rng, tier, idx):
     idmax = 3
     if fam == "TruncNormal":      # sympy needs 20-40 s for derivatives of the erf-based cf
         idmax = 0 if tier == "quick" else 2
+        amax = 2 if tier == "quick" else 5
     a = b = c = d = 0
     if kind == "trig":
         while True:
@@ -186,8 +187,8 @@ def program_case(rng, tier, idx):
     feats = set(["exact-mode" if exact else "default-mode"])
     init, body = [], []
     inits = {}
-    shape = wchoice(r, [("plain", 8), ("ref", 3), ("cond-keep", 3), ("cond-else", 2), ("init-func", 3), ("pre-use", 3), ("two-draws", 4),
-                        ("const", 4), ("mix", 3), ("divergent", 2), ("guarded", 1), ("simult", 1)])
+    shape = wchoice(r, [("plain", 8), ("ref", 3), ("cond-keep", 3), ("cond-else", 2), ("init-func", 3), ("pre-use", 3), ("old-use", 3), ("two-draws", 4),
+                        ("const", 4), ("mix", 3), ("divergent", 2), ("guarded", 1), ("simult", 1), ("const-init", 1)])
     feats.add("shape-" + shape)
     fam = wchoice(r, PROGRAM_FAMILIES)
     want_exp = shape in ("mix", "divergent") or r.random() < 0.4
@@ -231,6 +232,12 @@ def program_case(rng, tier, idx):
     pre = []
     if shape == "guarded":
         init.append("t = 0")
+    if shape == "const-init":
+        init.append(f"k = {r.choice([1, 2, 3])}")
+        if r.random() < 0.5:
+            init.append("sk = Sin(k)")
+        else:
+            body.append("sk = Cos(k)")
     if shape in ("cond-keep", "cond-else"):
         body.append(f"b = Bernoulli({fs(r.choice([F(1, 2), F(1, 3), F(3, 4)]))})")
     draw_line = f"x = {dist_text(fam, ps)}"
@@ -271,6 +278,12 @@ def program_case(rng, tier, idx):
             alt = r.choice([f"{name0} = 2*{name0}", f"{name0} = 1", f"{name0} = {name0} - 1", f"{name0} = Cos(2)"])
             lines = [f"if b == 1:", f"    {v0}", "else:", f"    {alt}", "end"] + lines[1:]
             inits[name0] = r.choice([F(0), F(1, 2), F(1)])
+        elif shape == "old-use":
+            name0 = funcs_x[0][0]
+            use = r.choice([f"y = y + {coef_mul(r.choice(COEFS), 'x*' + name0)}", f"y = y + {coef_mul(r.choice(COEFS), name0)}",
+                            f"y = y + x - {name0}"])
+            lines = [use] + lines
+            inits[name0] = r.choice([F(1, 2), F(1), F(-1), F(2)])
         elif shape == "simult" and len(lines) >= 2:
             vs = [l.split(" = ")[0] for l in lines[:2]]
             rs = [l.split(" = ")[1] for l in lines[:2]]
@@ -315,6 +328,8 @@ def program_case(rng, tier, idx):
         consts.append(nm)
         feats.add("const-arg-" + style)
 
+    if shape == "const-init":
+        consts.append("sk")
     fx = [v for v, _ in funcs_x]
     trig_x = [v for v, f in funcs_x if f != "Exp"]
     exp_x = [v for v, f in funcs_x if f == "Exp"]
@@ -392,6 +407,9 @@ def program_case(rng, tier, idx):
     if force:
         cands.insert(0, {v: force.count(v) for v in force})
     r.shuffle(cands)
+    if shape == "old-use":
+        cands.insert(0, {"y": 1, fx[0]: 1})
+        cands.insert(1, {"y": 2})
     if force:
         fm = {v: force.count(v) for v in force}
         goals.append(fm)
